@@ -272,6 +272,8 @@ def ref_pess(T, N, S, P, key_slack, gate=None):
 
 # -- exact geometric definitions of the table entries (realisation / replay) ----------------------
 MARGIN = Fraction(1, 100)   # realised counterexamples are asked to be this far from every predicate boundary
+LINEAR = False              # True: linear *sufficient* certificates for the negative cases (fast first attempt)
+EXACT = False               # True: definitions without margins (exact iff) — used to discard unrealisable tables
 
 
 def _rect_facet_margins(W, ri, rj, s):
@@ -291,6 +293,8 @@ def rect_dom_def(W, ri, rj, s, value=None):
     mg = _rect_facet_margins(W, ri, rj, s)
     if value is None:
         return zand([a >= 0 for a in mg])
+    if EXACT:
+        return zand([a >= 0 for a in mg]) if value else zor([a < 0 for a in mg])
     if value:
         return zand([a >= sym.rv(MARGIN) for a in mg])
     return zor([a <= -sym.rv(MARGIN) for a in mg])
@@ -304,10 +308,22 @@ def rect_cov_def(ctx, W, ri, rj, s, value):
     z = [ctx.fresh("rz") for _ in range(m)]
     zp = [ctx.fresh("rzp") for _ in range(m)]
     if value:
-        return rect_oracle(Wq, zs(ri.lower), zs(ri.upper), zs(rj.lower), zs(rj.upper), s, z, zp, margin=sym.rv(MARGIN))
+        return rect_oracle(Wq, zs(ri.lower), zs(ri.upper), zs(rj.lower), zs(rj.upper), s, z, zp,
+                           margin=None if EXACT else sym.rv(MARGIN))
+    if LINEAR and not EXACT:
+        # some facet cannot be satisfied by any pair: max over the boxes of w_n·(z'−z−s) ≤ −margin
+        l1, u1, l2, u2 = zs(ri.lower), zs(ri.upper), zs(rj.lower), zs(rj.upper)
+        alts = []
+        for row in np.asarray(W, dtype=float):
+            acc = sym.rv(0)
+            for k, w in enumerate(row):
+                wq = sym.rv(w)
+                acc = acc + wq * ((u2[k] - l1[k]) if w >= 0 else (l2[k] - u1[k])) - wq * s[k]
+            alts.append(acc <= -sym.rv(MARGIN))
+        return zor(alts)
     f = rect_oracle(Wq, zs(ri.lower), zs(ri.upper), zs(rj.lower), zs(rj.upper), s, z, zp)
     atoms = lp.linear_atoms(f, z + zp)
-    cert, _ = lp.farkas_infeasible(atoms, ctx.fresh, margin=MARGIN)
+    cert, _ = lp.farkas_infeasible(atoms, ctx.fresh, margin=None if EXACT else MARGIN)
     return cert
 
 
@@ -325,14 +341,23 @@ def rect_pd_def(ctx, W, rj, ri, value):
         for v in verts_j:
             z = [ctx.fresh("pz") for _ in range(m)]
             out.append(z3.And(zand([z3.And(li[k] <= z[k], z[k] <= ui[k]) for k in range(m)]),
-                              zand([dotz(row, [v[k] - z[k] for k in range(m)]) >= sym.rv(MARGIN) for row in Wq])))
+                              zand([dotz(row, [v[k] - z[k] for k in range(m)]) >= (0 if EXACT else sym.rv(MARGIN)) for row in Wq])))
         return zand(out)
+    if LINEAR and not EXACT:
+        # some vertex v of R_j and facet k with w_k·v below the minimum of w_k over R_i
+        alts = []
+        for v in verts_j:
+            for row, rowf in zip(Wq, np.asarray(W, dtype=float)):
+                mn = sum((sym.rv(w) * (li[k] if w >= 0 else ui[k]) for k, w in enumerate(rowf)), sym.rv(0))
+                alts.append(dotz(row, v) + sym.rv(MARGIN) <= mn)
+        return zor(alts)
     alts = []
     for v in verts_j:
         d = [ctx.fresh("pd") for _ in range(K)]
         q = [dotz(row, v) for row in Wq]
         alts.append(z3.And(zand([x >= 0 for x in d]), sum(d, sym.rv(0)) == 1,
-                           zand([dotz(d, q) + sym.rv(MARGIN) <= dotz(d, [dotz(row, vi) for row in Wq]) for vi in verts_i])))
+                           zand([(dotz(d, q) < dotz(d, [dotz(row, vi) for row in Wq])) if EXACT else
+                                 (dotz(d, q) + sym.rv(MARGIN) <= dotz(d, [dotz(row, vi) for row in Wq])) for vi in verts_i])))
     return zor(alts)
 
 
@@ -344,6 +369,8 @@ def sphere_dom_def(W, ri, rj, s, value=None):
           for n, row in enumerate(Wq)]
     if value is None:
         return zand([a >= 0 for a in mg])
+    if EXACT:
+        return zand([a >= 0 for a in mg]) if value else zor([a < 0 for a in mg])
     if value:
         return zand([a >= sym.rv(MARGIN) for a in mg])
     return zor([a <= -sym.rv(MARGIN) for a in mg])
